@@ -78,17 +78,26 @@ class Interp:
         m = getattr(self, "st_" + type(s).__name__, None)
         if m is None:
             self.unsupported(s)
+        simple = not isinstance(s, (ast.For, ast.While, ast.If, ast.Try, ast.With))
+        gb = getattr(self.c, "ghost_before", None)
+        if gb and simple:
+            self._fire(gb, ast.unparse(s), "before")
         m(s)
         gu = getattr(self.c, "ghost_updates", None)
-        if gu and not isinstance(s, (ast.For, ast.While, ast.If, ast.Try, ast.With)):
-            key = ast.unparse(s)
-            if key in gu:
-                gu[key](ctx, self)
-            else:
-                import re as _re
-                for pat, fn in gu.items():
-                    if pat.startswith("re:") and _re.search(pat[3:], key):
-                        fn(ctx, self)
+        if gu and simple:
+            self._fire(gu, ast.unparse(s), "after")
+
+    def _fire(self, table, key, when):
+        fired = self.engine.ghost_fired
+        if key in table:
+            fired.add((when, key))
+            table[key](self.ctx, self)
+        else:
+            import re as _re
+            for pat, fn in table.items():
+                if pat.startswith("re:") and _re.search(pat[3:], key):
+                    fired.add((when, pat))
+                    fn(self.ctx, self)
 
     def st_Pass(self, s):
         pass
@@ -466,6 +475,8 @@ class Interp:
             return VPy("<havocked>")
         if z3.is_expr(v):
             return z3.Const(fresh_name(base), v.sort())
+        if isinstance(v, z3.FuncDeclRef):
+            return z3.Function(fresh_name(base), *([v.domain(i) for i in range(v.arity())] + [v.range()]))
         if hasattr(v, "fresh_like"):
             return v.fresh_like(self.ctx, base)
         raise Unsupported("cannot havoc %r" % (v,))
@@ -528,15 +539,29 @@ class Interp:
             if not hasattr(ctx, "write_guards"):
                 ctx.write_guards = []
             ctx.write_guards.append((seen, nloc0, "the body of loop #%d" % k))
+            if not hasattr(ctx, "ghost_guards"):
+                ctx.ghost_guards = []
+            ctx.ghost_guards.append((set(spec.get("havoc_ghosts", [])), "the body of loop #%d" % k))
+            if not hasattr(ctx, "loop_stack"):
+                ctx.loop_stack = []
+            ctx.loop_stack.append(k)
             try:
-                self.exec_block(node.body)
-            except ContinueSig:
-                pass
+                if "iteration_start" in spec:
+                    spec["iteration_start"](ctx, self)
+                try:
+                    self.exec_block(node.body)
+                except ContinueSig:
+                    pass
+                # ghost bookkeeping at the end of every completed iteration (also after `continue`)
+                if "iteration_end" in spec:
+                    spec["iteration_end"](ctx, self)
             except BreakSig:
                 # leaves the loop with the state at the break
                 return
             finally:
                 ctx.write_guards.pop()
+                ctx.ghost_guards.pop()
+                ctx.loop_stack.pop()
             body_epilogue()
             self.check_inv(k, spec, "preserved", entry)
             if v0 is not None:
@@ -660,6 +685,12 @@ class Interp:
             if not hasattr(ctx, "write_guards"):
                 ctx.write_guards = []
             ctx.write_guards.append((seen, nloc0, "the body of loop #%d" % k))
+            if not hasattr(ctx, "ghost_guards"):
+                ctx.ghost_guards = []
+            ctx.ghost_guards.append((set(spec.get("havoc_ghosts", [])), "the body of loop #%d" % k))
+            if not hasattr(ctx, "loop_stack"):
+                ctx.loop_stack = []
+            ctx.loop_stack.append(k)
             try:
                 self.exec_block(s.body)
             except ContinueSig:
@@ -668,6 +699,8 @@ class Interp:
                 return
             finally:
                 ctx.write_guards.pop()
+                ctx.ghost_guards.pop()
+                ctx.loop_stack.pop()
             ex["$proc"] = VSet(S.ty, z3.Store(proc.t, x, True))
             self.check_inv(k, spec, "preserved", entry)
             raise PathEnd()
@@ -684,6 +717,10 @@ class Interp:
         if m is None:
             self.unsupported(e)
         return m(e)
+
+    def ex_Lambda(self, e):
+        # an opaque function value; contracts that receive it inspect its text
+        return VPy(("lambda", ast.unparse(e)))
 
     def ex_Constant(self, e):
         v = e.value
